@@ -35,17 +35,45 @@ def candidate_bytes(tree, f, cls, k, P):
 
 
 class _SortedListing:
-    """Impose the enumeration order: os.listdir returns names sorted (candidate directories are
-    named so that sorted order = the order the case prescribes)."""
+    """Impose the enumeration order: os.listdir / os.scandir (hence os.walk, Path.iterdir, glob)
+    return entries sorted by name (candidate directories are named so that sorted order = the
+    order the case prescribes)."""
 
     def __enter__(self):
-        self.real = os.listdir
-        real = self.real
-        os.listdir = lambda path=".": sorted(real(path))
+        self.real_listdir, self.real_scandir = os.listdir, os.scandir
+        real_listdir, real_scandir = self.real_listdir, self.real_scandir
+        os.listdir = lambda path=".": sorted(real_listdir(path))
+
+        class _Scan:
+            """os.scandir replacement: a real iterator (os.walk calls next() on it) over the
+            entries sorted by name."""
+
+            def __init__(self, path):
+                self._it = real_scandir(path)
+                self._sorted = None
+
+            def __enter__(self):
+                return self
+
+            def __exit__(self, *a):
+                self._it.close()
+                return False
+
+            def close(self):
+                self._it.close()
+
+            def __iter__(self):
+                return self
+
+            def __next__(self):
+                if self._sorted is None:
+                    self._sorted = iter(sorted(self._it, key=lambda e: e.name))
+                return next(self._sorted)
+        os.scandir = lambda path=".": _Scan(path)
         return self
 
     def __exit__(self, *a):
-        os.listdir = self.real
+        os.listdir, os.scandir = self.real_listdir, self.real_scandir
         return False
 
 
